@@ -193,6 +193,23 @@ fn on_step<K: Kit>(tier: &str, idx: usize, st: &mut PrmStep<K>, rep: &mut Report
             return;
         }};
     }
+    // ---- a builder that drew more samples than the script assumed (several per deadline check):
+    // the incremental comparison with `pre` does not apply; judge the whole roadmap from the log
+    if st.rig.space.overdrawn.get() > 0 {
+        rep.count("overdrawn_constructions", 1);
+        let drawn: Vec<K::S> = st.rig.space.log.borrow().iter().map(|(_, s)| s.clone()).collect();
+        let want: Vec<&K::S> = drawn.iter().filter(|s| st.rig.world.free(s)).collect();
+        let same = want.len() == post.len() && want.iter().zip(post.iter()).all(|(a, (b, _))| K::same(a, b));
+        if !same {
+            fail!("milestones-not-exactly-valid-samples", format!("{} samples drawn, {} of them valid, roadmap has {} milestones (or other states)", drawn.len(), want.len(), post.len()), "construct");
+        }
+        for (i, (s, _)) in post.iter().enumerate() {
+            if !st.rig.world.free(s) {
+                fail!("invalid-milestone", format!("milestone {i} is rejected by the validity checker"), "construct");
+            }
+        }
+        return;
+    }
     // ---- milestone set
     let valid = st.rig.world.free(&q);
     let want_len = pre.len() + valid as usize;
@@ -304,6 +321,40 @@ fn on_step<K: Kit>(tier: &str, idx: usize, st: &mut PrmStep<K>, rep: &mut Report
         fail!(format!("replaced-problem:{k}"), w, "query-P2");
     }
     rep.count("replaced_problem_queries", 1);
+    // ---- P3: the original start with a goal around an interior alphabet state (goal milestones that
+    // are one or more links away from the start connections), asked AFTER other - possibly failed -
+    // queries on the same roadmap
+    let b = base_of(st.sc.kit);
+    let p3_centre = st.rig.alphabet[b.sub3[1] as usize].clone();
+    let dist3 = dist_fn::<K>(&st.sc.spec);
+    let p3_goal = Arc::new(HGoal::<K>::new(vec![(p3_centre.clone(), st.sc.goal_balls[0].1)], vec![p3_centre.clone()], dist3));
+    let pd3 = Arc::new(Pd::<K> { space: st.rig.space.clone(), start_states: vec![start.clone()], goal: p3_goal.clone() });
+    st.rig.drv.set_problem_definition(pd3);
+    let res3q = match guarded(|| st.rig.drv.solve(LONG)) {
+        Ok(r) => r,
+        Err(_) => fail!("query-panicked", "solve unwound after the second set_problem_definition".into(), "query-P3"),
+    };
+    if let Err((k, w)) = check_query::<K>(st.rig, post, &start, &p3_goal, &res3q, rep) {
+        fail!(format!("replaced-problem:{k}"), w, "query-P3");
+    }
+    // ---- queries are pure: the first problem asked again answers exactly as it did the first time
+    st.rig.drv.set_problem_definition(st.rig.pd.clone());
+    let res1b = match guarded(|| st.rig.drv.solve(LONG)) {
+        Ok(r) => r,
+        Err(_) => fail!("query-panicked", "solve unwound when the first problem was asked again".into(), "query-P1-again"),
+    };
+    let same_answer = match (&res, &res1b) {
+        (Ok(a), Ok(b)) => a.len() == b.len() && a.iter().zip(b).all(|(x, y)| K::same(x, y)),
+        (Err(a), Err(b)) => a == b,
+        _ => false,
+    };
+    rep.count("repeated_first_queries", 1);
+    if !same_answer {
+        fail!("query-not-repeatable", format!("the same problem on the same roadmap answered {} first and {} after two other queries", match &res { Ok(p) => format!("Ok({} states)", p.len()), Err(e) => format!("{e:?}") }, match &res1b { Ok(p) => format!("Ok({} states)", p.len()), Err(e) => format!("{e:?}") }), "query-P1-again");
+    }
+    if st.rig.snapshot().key() != st.post.key() {
+        fail!("problem-replacement-changed-roadmap", "the query sequence modified the roadmap".into(), "query-P1-again");
+    }
     // ---- setup again clears the roadmap
     let (pd, w) = (st.rig.pd.clone(), st.rig.world.clone());
     st.rig.drv.setup(pd, w);
